@@ -366,6 +366,9 @@ class _ANode(AObj):
         return f'<ast.{self.kind}>'
 
 
+_EXPR_KINDS = {'Name', 'Attribute', 'Subscript', 'Call', 'Constant', 'Tuple', 'List', 'Starred', 'BinOp', 'NamedExpr'}
+
+
 class _Scopes(AObj):
     """The transformer's stack of lexical scopes (only what visit_AnnAssign reads)."""
 
@@ -607,12 +610,15 @@ def _annassign(ctx):
 
     def inst(obj, c):
         if isinstance(obj, _ANode):
-            nm = getattr(c, 'name', repr(c))
-            return nm.split('.')[-1] == obj.kind
+            nm = getattr(c, 'name', repr(c)).split('.')[-1]
+            return nm == obj.kind or nm in ('AST', 'expr' if obj.kind in _EXPR_KINDS else 'stmt')
         return saved_inst(obj, c) if saved_inst else None
     F.isinstance_hook = inst
     mk = 'beartype._util.ast.utilastmake.'
     made = []
+    # nodes built directly with the ast constructors (rather than through the utilastmake helpers)
+    for K in _EXPR_KINDS | {'Expr', 'keyword'}:
+        F.ext_stubs[f'ast.{K}'] = (lambda K: lambda e, a, k: made.append(_ANode(K, made_with=dict(k), args=list(a), **k)) or made[-1])(K)
 
     def maker(kind):
         def f(env, a, k):
@@ -625,6 +631,7 @@ def _annassign(ctx):
         F.stubs[mk + nm] = maker(kind)
     F.ext_stubs['ast.unparse'] = lambda e, a, k: 'obj'
     F.stubs['beartype._util.text.utiltextansi.color_attr_name'] = lambda e, a, k: 'name'
+    F.stubs['beartype._util.ast.utilastmunge.copy_node_metadata'] = lambda e, a, k: None
     from sa.fold import BoundMethod
 
     class _Self(AObj):
